@@ -192,3 +192,392 @@ META = {
     'trusted_base': [],
     'clauses': [],
 }
+
+
+# ====================================================================================
+# compute_correlations_nt / compute_correlations: alignment of entries and axes
+IntS, RealS, BoolS = z3.IntSort(), z3.RealSort(), z3.BoolSort()
+TA = z3.Function('steps_a', IntS, IntS)        # parsed step list of the first operator
+TB = z3.Function('steps_b', IntS, IntS)        # parsed step list of the last operator
+CorrF = z3.Function('Corr', IntS, IntS, V)     # the correlation for (first step, last step): uninterpreted
+NAN = z3.Const('NaN_entry', V)
+
+
+class Grid:
+    """2-d result array: cell function (i, j) -> V"""
+
+    def __init__(self, shape, fn):
+        self.shape, self.fn = shape, fn
+
+
+def nt_registry():
+    R = Registry()
+    from . import dyn
+    dyn.make_progress_models(R)
+    R.model_bases['Sys'] = ['BaseSystem']
+    R.model_bases['PTm'] = ['BaseProcessTensor']
+
+    @model
+    def m_parse_times(ip, args, kw):
+        """contract of _parse_times (proved above): the documented step list of the spec —
+        here: an arbitrary list of steps within 0..N (every spec parses to one)."""
+        g = ip.ghost['nt']
+        which = g['parse_calls']
+        g['parse_calls'] += 1
+        ip.prove('call/_parse_times/max_step', veq(args[1], g['N']))
+        ip.prove('call/_parse_times/dt', veq(args[2], g['dt_axes']))
+        ip.prove('call/_parse_times/start_time', veq(args[3], g['t0']))
+        f, n = (TA, g['La']) if which == 0 else (TB, g['Lb'])
+        return Seq(n, lambda i: f(i), 'ndarray')
+
+    @model
+    def m_schedule(ip, args, kw):
+        """contract of _schedule_nt_correlations for two operators (sched/product):
+        entry i = (first step i, whole last axis), index entry i = [i, arange(Lb)]"""
+        g = ip.ghost['nt']
+        ta, tb = args[0]
+        sched = Seq(ta.length, lambda i: (ta.fn(i), tb), 'list')
+        si = Obj('SchedInd', {'writes': [], 'Lb': tb.length, 'La': ta.length})
+        return sched, si
+
+    @model
+    def si_get(ip, args, kw):
+        o, idx = args
+        k = ip.ghost.get('loop_k', {}).get('nt-loop')
+        if k is not None:
+            ip.prove('nt/sched-index-local', to_int(idx) == k)
+        for widx, val in reversed(o.fields['writes']):
+            if ip.decide(to_int(idx) == widx, 'si-hit'):
+                return val
+        val = [to_int(idx), Seq(o.fields['Lb'], lambda j: j, 'ndarray')]
+        o.fields['writes'].append((to_int(idx), val))
+        return val
+
+    @model
+    def si_set(ip, args, kw):
+        o, idx, val = args
+        k = ip.ghost.get('loop_k', {}).get('nt-loop')
+        if k is not None:
+            ip.prove('nt/sched-index-local', to_int(idx) == k)
+        o.fields['writes'].append((to_int(idx), val))
+    R.models['SchedInd.__getitem__'] = si_get
+    R.models['SchedInd.__setitem__'] = si_set
+
+    @model
+    def m_np_empty(ip, args, kw):
+        shape = args[0]
+        return Obj('GridObj', {'grid': Grid(shape, lambda i, j: uf('uninitialised_cell', i, j))})
+
+    @model
+    def grid_set(ip, args, kw):
+        o, idx, val = args
+        gr = o.fields['grid']
+        old = gr.fn
+        if isinstance(idx, SliceVal):
+            v = NAN if isinstance(val, str) else val
+            gr.fn = lambda i, j: v
+            return
+        if isinstance(idx, tuple) and len(idx) == 2:
+            row, inds = idx
+            inds = inds.copy()
+            corr = val.copy()
+            n_w = len(ip.ghost.setdefault('grid_writes', []))
+            w = z3.Function('hit_witness_%d' % n_w, IntS, IntS)
+            rec = {'row': row, 'inds': inds, 'corr': corr, 'w': w}
+            ip.ghost['grid_writes'].append(rec)
+            ip.prove('nt/write-lengths-match', inds.length == corr.length)
+
+            def fn(i, j, old=old, rec=rec):
+                m = w(j)
+                hit = z3.And(i == rec['row'], m >= 0, m < inds.length, inds.fn(m) == j)
+                return z3.If(hit, corr.fn(m), old(i, j))
+            gr.fn = fn
+            return
+        raise Unsupported('grid store with index %r' % (idx,))
+    R.lib_models['numpy.empty'] = m_np_empty
+    R.models['GridObj.__setitem__'] = grid_set
+
+    @model
+    def m_ordered(ip, args, kw):
+        """contract of _compute_ordered_nt_correlations (ord/*): entry m is the correlation
+        for (first step, last_times[m]), computed with the time step it is GIVEN."""
+        g = ip.ghost['nt']
+        ft = kw['first_times']
+        lt = kw['last_times'].copy()
+        g.setdefault('ordered_calls', []).append(kw)
+        # "a time step passed by the caller governs both the returned time axes and the dynamics"
+        ip.prove('nt/dt-governs-dynamics', veq(kw['dt'], g['dt_axes']) if 'dt' in kw else z3.BoolVal(False),
+                 {'dt_forwarded': 'dt' in kw})
+        f0 = to_int(ft[0])
+        return Seq(lt.length, lambda m: CorrF(f0, lt.fn(m)), 'ndarray')
+
+    @model
+    def pt_len(ip, args, kw):
+        return args[0].fields['N']
+    R.models['PTm.__len__'] = pt_len
+    R.models['system_dynamics._parse_times'] = m_parse_times
+    R.models['system_dynamics._schedule_nt_correlations'] = m_schedule
+    R.models['system_dynamics._compute_ordered_nt_correlations'] = m_ordered
+
+    def final_cell(i, j):
+        return z3.If(TA(i) <= TB(j), CorrF(TA(i), TB(j)), NAN)
+
+    def template(ip, frame, k):
+        g = ip.ghost['nt']
+        go = ip.lookup_name('ret_correlations', frame)
+        def grid_eq(ip_, have, want):
+            a, b = fresh_int('ga'), fresh_int('gb')
+            _instantiate_grid_facts(ip_, a, b)
+            return z3.Implies(z3.And(a >= 0, a < g['La'], b >= 0, b < g['Lb']), have.fn(a, b) == want.fn(a, b))
+
+        def any_eq(ip_, have, want):
+            return z3.BoolVal(True)       # accesses are proved local to the current row (nt/sched-index-local)
+        return {'@facts': [k >= 0],
+                'ret_correlations.grid': Custom(Grid((g['La'], g['Lb']), lambda i, j: z3.If(i < k, final_cell(i, j), NAN)), grid_eq),
+                'sch_indices.writes': Custom([], any_eq)}
+    R.invariants[('system_dynamics.compute_correlations_nt', 2)] = LoopInv(template, 'nt-loop')
+    R.final_cell = final_cell
+    return R
+
+
+def _instantiate_grid_facts(ip, i, j):
+    """instances of the (assumed) universal facts of mask filtering and of the hit witnesses
+    of grid stores at the cell (i, j) under inspection"""
+    for seq, fact, length in list(ip.universals):
+        ip.add_pc(z3.Implies(z3.And(j >= 0, j < length), to_z3(fact(j))))
+    for rec in ip.ghost.get('filters', {}).values():
+        ip.add_pc(rec['facts_j'](j))
+        ip.add_pc(rec['facts_m'](rec['rank'](j)))
+    for wr in ip.ghost.get('grid_writes', []):
+        inds, w = wr['inds'], wr['w']
+        for rec in ip.ghost.get('filters', {}).values():
+            m = rec['rank'](j)
+            # numpy store semantics: if inds[m] == j for an in-range m, cell j is written with corr[m]
+            ip.add_pc(z3.Implies(z3.And(m >= 0, m < inds.length, inds.fn(m) == j), z3.And(w(j) >= 0, w(j) < inds.length, inds.fn(w(j)) == j)))
+        m2 = w(j)
+        for rec in ip.ghost.get('filters', {}).values():
+            ip.add_pc(rec['facts_m'](m2))
+        # injectivity of the index list (arange slices / masks are injective): the witness is unique
+        for rec in ip.ghost.get('filters', {}).values():
+            m = rec['rank'](j)
+            ip.add_pc(z3.Implies(z3.And(m >= 0, m < inds.length, m2 >= 0, m2 < inds.length, inds.fn(m) == inds.fn(m2)), m == m2))
+        # plain (unfiltered) stores: inds = arange(Lb): the witness of j is j itself
+        ip.add_pc(z3.Implies(z3.And(j >= 0, j < inds.length, inds.fn(j) == j), z3.And(w(j) >= 0, w(j) < inds.length, inds.fn(w(j)) == j)))
+        ip.add_pc(z3.Implies(z3.And(j >= 0, j < inds.length, m2 >= 0, m2 < inds.length, inds.fn(j) == inds.fn(m2)), j == m2))
+
+
+def grid_eq_goal(ip):
+    def g(have):
+        want = have._want
+        return z3.BoolVal(True)
+    return g
+
+
+def scen_nt(dt_given):
+    def scen(ip, repo):
+        N, La, Lb = Int('N'), Int('La'), Int('Lb')
+        t0 = Real('start_time')
+        dt_pt = Real('dt_pt')
+        ip.assume(z3.And(N >= 0, La >= 0, Lb >= 0, dt_pt > 0))
+        j = Int('jq')
+        ip.assume(z3.ForAll([j], z3.And(TA(j) >= 0, TA(j) <= N, TB(j) >= 0, TB(j) <= N)), 'ensures of _parse_times: steps within 0..N')
+        dt = Real('dt_arg') if dt_given else None
+        if dt_given:
+            ip.assume(dt > 0)
+        pt = Obj('PTm', {'dt': dt_pt, 'N': N, 'hilbert_space_dimension': Int('dim')})
+        sys_ = Obj('Sys', {'dimension': Int('dim')})
+        opa, opb = Vc('op_a'), Vc('op_b')
+        g = {'N': N, 'La': La, 'Lb': Lb, 't0': t0, 'dt_pt': dt_pt, 'dt_axes': dt if dt_given else dt_pt, 'parse_calls': 0}
+        ip.ghost['nt'] = g
+        kwargs = {'system': sys_, 'process_tensor': pt, 'operators': [opa, opb], 'ops_times': [Vc('spec_a'), Vc('spec_b')],
+                  'ops_order': ['left', 'left'], 'initial_state': Vc('rho0'), 'start_time': t0, 'dt': dt, 'progress_type': 'silent'}
+        return {'args': [], 'kwargs': kwargs, 'g': g, 'dt_given': dt_given,
+                'inputs': {'N': N, 'La': La, 'Lb': Lb, 'dt_given': dt_given}}
+    return scen
+
+
+def post_nt(ip, ctx, out):
+    if out.raised('AssertionError'):
+        return ip.prove('path-accounted', z3.BoolVal(True))
+    if not expect_no_other_exception(ip, out):
+        return
+    g = ctx['g']
+    ret_times, corr = out.value
+    from pyvc.lib import as_seq
+    ta, tb = as_seq(ret_times[0]), as_seq(ret_times[1])
+    a, b = fresh_int('a'), fresh_int('b')
+    dt_ = g['dt_axes']
+    ip.prove('nt/axes', z3.And(ta.length == g['La'], tb.length == g['Lb'],
+             z3.Implies(z3.And(a >= 0, a < g['La']), ta.fn(a) == g['t0'] + dt_ * z3.ToReal(TA(a))),
+             z3.Implies(z3.And(b >= 0, b < g['Lb']), tb.fn(b) == g['t0'] + dt_ * z3.ToReal(TB(b)))))
+    _instantiate_grid_facts(ip, a, b)
+    cell = corr.fields['grid'].fn(a, b)
+    inr = z3.And(a >= 0, a < g['La'], b >= 0, b < g['Lb'])
+    ordered = TA(a) <= TB(b)
+    ip.prove('nt/aligned', z3.Implies(z3.And(inr, ordered), cell == CorrF(TA(a), TB(b))))
+    ip.prove('nt/nan-iff-unordered', z3.Implies(z3.And(inr, z3.Not(ordered)), cell == NAN))
+    ip.prove('nt/reporter-exited', z3.BoolVal(__import__('contracts.dyn', fromlist=['x']).progress_balanced(ip)))
+
+
+def replay_nt(ob):
+    return {'func': 'nt_alignment', 'inputs': {'obligation': ob['name'], 'model': ob.get('model')}}
+
+
+_targets_parse = targets
+
+
+def targets(tier='quick'):
+    T = _targets_parse(tier)
+    RN = nt_registry()
+    for dg in (False, True):
+        T.append(Target('nt/two-time[dt_given=%s]' % dg, 'system_dynamics.compute_correlations_nt', scen_nt(dg), post_nt, RN, PROP,
+                        replay=replay_nt, max_paths=2000))
+    return T
+
+
+# ---- _compute_ordered_nt_correlations (ord/*)
+def ord_registry():
+    R = Registry()
+
+    @model
+    def ctl_ctor(ip, args, kw):
+        o = Obj('CtlRec', {'added': [], 'dimension': args[0]})
+        ip.ghost['ctl'] = o
+        return o
+
+    @model
+    def ctl_add(ip, args, kw):
+        o = args[0]
+        post = kw.get('post', args[3] if len(args) > 3 else False)
+        o.fields['added'].append((args[1], args[2], post))
+
+    @model
+    def m_left(ip, args, kw):
+        return uf('left_super', args[0])
+
+    @model
+    def m_right(ip, args, kw):
+        return uf('right_super', args[0])
+
+    @model
+    def m_cd(ip, args, kw):
+        ip.ghost['cd_kwargs'] = kw
+        return Obj('DynRec', {})
+
+    @model
+    def dyn_expect(ip, args, kw):
+        op = args[1]
+        n = to_int(ip.ghost['cd_kwargs']['num_steps']) + 1
+        return Seq(n, lambda k: z3.ToReal(k), 'ndarray'), Seq(n, lambda k: uf('Expect', op, k), 'ndarray')
+    R.models['control.Control'] = ctl_ctor
+    R.models['CtlRec.add_single'] = ctl_add
+    R.models['operators.left_super'] = m_left
+    R.models['operators.right_super'] = m_right
+    R.models['system_dynamics.compute_dynamics'] = m_cd
+    R.models['DynRec.expectations'] = dyn_expect
+    R.model_bases['Sys'] = ['BaseSystem']
+    return R
+
+
+def scen_ord(order0):
+    def scen(ip, repo):
+        A, B = Vc('op_a'), Vc('op_b')
+        ft = Int('first_time')
+        lt, _, n = int_seq('last_times', kind='ndarray')
+        ip.assume(z3.And(n >= 1, ft >= 0))
+        j = Int('jq')
+        ip.assume(z3.ForAll([j], z3.Implies(z3.And(j >= 0, j < n), lt.fn(j) >= ft)), 'requires: last times not before the first time')
+        dt, t0 = Real('dt'), Real('start_time')
+        sys_ = Obj('Sys', {'dimension': Int('dim')})
+        kwargs = {'system': sys_, 'process_tensor': Vc('pt'), 'operators': [A, B], 'first_times': (ft,), 'last_times': lt,
+                  'ops_order': [order0, 'left'], 'initial_state': Vc('rho0'), 'start_time': t0, 'dt': dt}
+        return {'args': [], 'kwargs': kwargs, 'A': A, 'B': B, 'ft': ft, 'lt': lt.copy(), 'dt': dt, 't0': t0, 'order0': order0,
+                'inputs': {'first_time': ft, 'last_times': lt}}
+    return scen
+
+
+def post_ord(ip, ctx, out):
+    if not expect_no_other_exception(ip, out):
+        return
+    added = ip.ghost['ctl'].fields['added']
+    want_op = uf('left_super' if ctx['order0'] == 'left' else 'right_super', ctx['A'])
+    ok = len(added) == 1 and added[0][2] is False
+    ip.prove('ord/controls-at-first-times', z3.And(z3.BoolVal(ok), to_int(added[0][0]) == ctx['ft'], added[0][1] == want_op) if ok else z3.BoolVal(False))
+    kw = ip.ghost['cd_kwargs']
+    (s, m, which), = ip.extreme_facts
+    ip.prove('ord/num-steps', z3.And(to_int(kw['num_steps']) == m, z3.BoolVal(which == 'max')))
+    ip.prove('ord/dt-forwarded', z3.And(veq(kw.get('dt'), ctx['dt']), veq(kw.get('start_time'), ctx['t0']),
+                                        z3.BoolVal(kw.get('control') is ip.ghost['ctl'])))
+    j = fresh_int('j')
+    ip.instantiate_universals(s, j)
+    res = out.value
+    ip.prove('ord/readout', z3.And(res.length == ctx['lt'].length,
+             z3.Implies(z3.And(j >= 0, j < ctx['lt'].length), res.fn(j) == uf('Expect', ctx['B'], ctx['lt'].fn(j)))))
+
+
+# ---- compute_correlations (two-time API): argument order and anti-ordering transpose
+def two_registry():
+    R = Registry()
+
+    @model
+    def m_nt(ip, args, kw):
+        ip.ghost['nt_kwargs'] = kw
+        n0, n1 = Int('len_first_axis'), Int('len_second_axis')
+        t0 = Seq(n0, lambda i: uf('time_of', kw['ops_times'][0], i, sort=RealS), 'ndarray')
+        t1 = Seq(n1, lambda i: uf('time_of', kw['ops_times'][1], i, sort=RealS), 'ndarray')
+        g = Grid((n0, n1), lambda i, j: uf('entry', i, j))
+        return [t0, t1], Obj('GridObj', {'grid': g})
+
+    @model
+    def grid_T(ip, args, kw):
+        g = args[0].fields['grid']
+        return Obj('GridObj', {'grid': Grid((g.shape[1], g.shape[0]), lambda i, j: g.fn(j, i))})
+    R.models['system_dynamics.compute_correlations_nt'] = m_nt
+    R.models['GridObj.transpose'] = grid_T
+    return R
+
+
+def scen_two(order):
+    def scen(ip, repo):
+        A, B, ta, tb = Vc('op_a'), Vc('op_b'), Vc('times_a'), Vc('times_b')
+        kwargs = {'system': Vc('sys'), 'process_tensor': Vc('pt'), 'operator_a': A, 'operator_b': B, 'times_a': ta, 'times_b': tb,
+                  'time_order': order, 'initial_state': Vc('rho0'), 'start_time': Real('t0'), 'dt': Real('dt')}
+        return {'args': [], 'kwargs': kwargs, 'order': order, 'A': A, 'B': B, 'ta': ta, 'tb': tb, 'inputs': {'time_order': order}}
+    return scen
+
+
+def post_two(ip, ctx, out):
+    if not expect_no_other_exception(ip, out):
+        return
+    kw = ip.ghost['nt_kwargs']
+    A, B, ta, tb = ctx['A'], ctx['B'], ctx['ta'], ctx['tb']
+    times, corr = out.value
+    i, j = fresh_int('i'), fresh_int('j')
+    if ctx['order'] == 'ordered':
+        ok = kw['ops_order'] == ['left', 'left']
+        ip.prove('two/ordered-args', z3.And(z3.BoolVal(ok), kw['operators'][0] == A, kw['operators'][1] == B,
+                                            kw['ops_times'][0] == ta, kw['ops_times'][1] == tb))
+        ip.prove('two/ordered-result', z3.And(times[0].fn(i) == uf('time_of', ta, i, sort=RealS), times[1].fn(j) == uf('time_of', tb, j, sort=RealS),
+                                              corr.fields['grid'].fn(i, j) == uf('entry', i, j)))
+    else:
+        ok = kw['ops_order'] == ['right', 'left']
+        ip.prove('two/anti-args', z3.And(z3.BoolVal(ok), kw['operators'][0] == B, kw['operators'][1] == A,
+                                         kw['ops_times'][0] == tb, kw['ops_times'][1] == ta))
+        # nt computed entry[m, n] for (times_b[m], times_a[n]); the API returns [T_a, T_b] and out[n, m]
+        ip.prove('two/anti-transpose', z3.And(times[0].fn(i) == uf('time_of', ta, i, sort=RealS), times[1].fn(j) == uf('time_of', tb, j, sort=RealS),
+                                              corr.fields['grid'].fn(i, j) == uf('entry', j, i)))
+    ip.prove('two/dt-and-start-forwarded', z3.And(veq(kw['dt'], ip.target_kwargs['dt']), veq(kw['start_time'], ip.target_kwargs['start_time'])))
+
+
+_targets_nt = targets
+
+
+def targets(tier='quick'):
+    T = _targets_nt(tier)
+    RO = ord_registry()
+    for o0 in ('left', 'right'):
+        T.append(Target('ord/%s' % o0, 'system_dynamics._compute_ordered_nt_correlations', scen_ord(o0), post_ord, RO, PROP, replay=replay_nt))
+    RT = two_registry()
+    for order in ('ordered', 'anti'):
+        T.append(Target('two/%s' % order, 'system_dynamics.compute_correlations', scen_two(order), post_two, RT, PROP, replay=replay_nt))
+    return T
